@@ -227,6 +227,20 @@ def purge (s : St) (k : String) : St :=
       | none => s
       | some _ => { s with segs := erase s.segs k, free := s.free + d.size, ds := erase s.ds k }
 
+/-- `Manager.purge(key, is_exit=True)`: ongoing reads do NOT delay it, free space is not touched (no lock at exit);
+a missing key, a dataset on disk and a failing `SharedMemory(shmid, create=False)` leave the state unchanged. -/
+def purgeExit (s : St) (k : String) : St :=
+  match find? s.ds k with
+  | none => s
+  | some d =>
+    if d.status == .onDisk then s
+    else match find? s.segs k with
+      | none => s
+      | some _ => { s with segs := erase s.segs k, ds := erase s.ds k }
+
+/-- `Manager.atexit`: purge every key known when the handler starts (SIGTERM handler / ShutdownCommand of the shm server) -/
+def atexit (s : St) : St := (s.ds.map (·.1)).foldl purgeExit s
+
 inductive CloseOut | ok | keyError | valueError
 deriving DecidableEq, Repr
 
